@@ -126,6 +126,11 @@ class SSETransport(Transport):
             # Wait for SSE connection to establish
             try:
                 await asyncio.wait_for(self._connected.wait(), timeout=self.timeout)
+                if not self._message_url:
+                    # The SSE task gave up before the server announced its endpoint
+                    raise RuntimeError(
+                        f"SSE connection to {self.base_url} failed: no endpoint announced"
+                    )
                 logger.info(f"SSE connection established to {self.base_url}")
                 return self
 
